@@ -1563,8 +1563,15 @@ The what argument tells us what sort of state is expected (allowed values are de
             return None
 
         if versionName.startswith(Product.LocalVersionPrefix): # they setup -r
-            return Product(productName, versionName, flavor, productDir,
-                           tablefile, db=self.getUpsDB(eupsPathDir))
+            product = None
+            if not utils.isRealFilename(eupsPathDir):
+                # no stack is recorded: rebuild the product the way setup built it (no table file is
+                # "none", the database is "(none)"), so that unsetup undoes what setup did
+                product = Product.createLocal(productName, versionName, flavor, tablefile=tablefile)
+            if product is None:
+                product = Product(productName, versionName, flavor, productDir,
+                                  tablefile, db=self.getUpsDB(eupsPathDir))
+            return product
         else:                           # a real product, fully identified by a version (and flavor, -Z)
             return self.findProduct(productName, versionName, eupsPathDirs=[eupsPathDir],
                                     flavor=flavor, noCache=False)
